@@ -10,14 +10,20 @@ From Coq Require Import List Bool String.
 Import ListNotations.
 Set Implicit Arguments.
 
-(* File names relative to the advertised autosave path `self.autosave_file` (= "<prefix><uuid>.dat"):
-   [Adv] is that path itself, [Sfx s] is `autosave_file.with_suffix("." ++ s)`. *)
-Inductive name := Adv | Sfx (s : string).
+(* File names relative to the advertised autosave path `self.autosave_file` ("<prefix><uuid>.dat" for a
+   fresh run, ANY path the user passes for a resumed run):
+   [Adv] is that path itself,
+   [Sfx s] is `autosave_file.with_suffix("." ++ s)`  (the last suffix REPLACED, or appended if none),
+   [App s] is `autosave_file.with_name(autosave_file.name + "." ++ s)`  (appended).
+   As symbols they are distinct; as paths they can coincide, depending on how the advertised name ends:
+   see [canon] below. *)
+Inductive name := Adv | Sfx (s : string) | App (s : string).
 
 Definition name_eqb (a b : name) : bool :=
   match a, b with
   | Adv, Adv => true
   | Sfx s, Sfx t => String.eqb s t
+  | App s, App t => String.eqb s t
   | _, _ => false
   end.
 
@@ -72,6 +78,55 @@ Fixpoint dedup (l : list name) : list name :=
 (* every name the routine can touch, the advertised one first *)
 Definition names_of (p : list op) : list name :=
   Adv :: dedup (filter (fun n => negb (name_eqb n Adv)) (flat_map names_op p)).
+
+(* ---- aliasing of paths -------------------------------------------------------------------------
+   [sg] = the last suffix of the advertised file name (None: no suffix).  With last suffix s,
+   `with_suffix(".s")` IS the advertised path; without a suffix `with_suffix(".u")` and the appended
+   name coincide; nothing else coincides (suffixes are alphanumeric).  [canon sg] maps every symbolic
+   name to the representative of its path, so that distinct results are distinct paths. *)
+Definition canon (sg : option string) (n : name) : name :=
+  match n, sg with
+  | Sfx t, Some s => if String.eqb t s then Adv else n
+  | App u, None => Sfx u
+  | _, _ => n
+  end.
+
+Definition map_prim (f : name -> name) (p : prim) : prim :=
+  match p with
+  | Write n => Write (f n)
+  | Rename a b => Rename (f a) (f b)
+  | Replace a b => Replace (f a) (f b)
+  | Remove n => Remove (f n)
+  | Stat n => Stat (f n)
+  end.
+
+Definition map_op (f : name -> name) (o : op) : op :=
+  match o with
+  | Do p => Do (map_prim f p)
+  | IfFile n p => IfFile (f n) (map_prim f p)
+  | IfNotFile n p => IfNotFile (f n) (map_prim f p)
+  end.
+
+(* the routine as it acts on real paths when the advertised name ends in [sg] *)
+Definition resolve (sg : option string) (p : list op) : list op := map (map_op (canon sg)) p.
+
+Fixpoint sfx_strings (l : list name) : list string :=
+  match l with
+  | [] => []
+  | Sfx s :: l' => s :: sfx_strings l'
+  | _ :: l' => sfx_strings l'
+  end.
+
+Fixpoint smem' (s : string) (l : list string) : bool :=
+  match l with [] => false | t :: l' => String.eqb s t || smem' s l' end.
+
+(* the ways the advertised name can end that matter: no suffix, or one of the suffixes the routine
+   passes to with_suffix; every other ending behaves like the symbolic list itself *)
+Definition classes (p : list op) : list (option string) :=
+  None :: map Some (sfx_strings (flat_map names_op p)).
+
+Definition all_classes (chk : list op -> bool) (p : list op) : bool :=
+  chk p && forallb (fun sg => chk (resolve sg p)) (classes p).
 
 Section FS.
 Variable C : Type.                       (* snapshot identity *)
